@@ -16,9 +16,15 @@ for d in sorted(sum([glob.glob(S + "/C??/[abcdef]") for S in SRCS], [])):
     # results of several runs accumulate in history.json kept next to the seed
     hist_p = os.path.join(d, "history.json")
     hist = json.load(open(hist_p)) if os.path.exists(hist_p) else []
-    if not hist or hist[-1] != res:
+    # drop exact duplicates (an older result file appended again behind a newer one), keeping the first occurrence
+    dd = []
+    for h in hist:
+        if h not in dd:
+            dd.append(h)
+    hist = dd
+    if res not in hist:
         hist.append(res)
-        json.dump(hist, open(hist_p, "w"), indent=1)
+    json.dump(hist, open(hist_p, "w"), indent=1)
     fin = os.path.join(DST, prop + x, "result.json")
     if os.path.exists(fin):
         fr = json.load(open(fin))
